@@ -191,7 +191,9 @@ PROPS = {
                     "settings in <= 5 batches, result kind, storage engine, earlier data on disk, pre-grown batches, "
                     "buffer size, write splitting); evaluations counts scenarios, workload_stats.crashes counts "
                     "kill executions; non-trivial = every scenario (each enumerates >= 1 crash site); distinct = "
-                    "distinct (victim, farmer, N, batches, kind, number of sites).",
+                    "distinct (victim, farmer, N, batches, kind, number of sites). distinct_states = distinct "
+                    "crash states reached = hash of (victim, farmer, {file name: empty / < 64 bytes / larger}) "
+                    "over the run's root directory right after a kill.",
         },
     },
     "C01": {
